@@ -1,7 +1,7 @@
 (* C08 — a crash never leaves a cache that is silently wrong.
    Statements only; models in Model/FsCrash.v, proofs in Proofs/FsCrashP.v.
    The crash state after the k-th system call of a workload is  apply (firstn k ops) s0. *)
-From Verif Require Import Prelude FsCrash FsCrashP.
+From Verif Require Import Prelude FsCrash FsCrashP FsRebuild FsRebuildP.
 Open Scope nat_scope.
 
 (* creation (write_patches + metadata), with an empty patch_ids.bin treated as an error:
@@ -310,4 +310,152 @@ Example C08_concrete_buffered :
   c08_hyp w = 0 /\ length (w_ops true w) = 19 /\
   map (fun k => w_class true w k 0) (seq 0 20) = [0; 0; 0; 0; 0; 0; 0; 0; 0; 0; 0; 0; 0; 0; 0; 3; 0; 3; 0; 3] /\
   recover_cat true (apply (w_ops true w) empty_fs) = Ok [(0, [0; 0; 0; 0; 0; 2; 2; 2]); (1, [1; 1; 1; 1])].
+Proof. vm_compute. repeat split. Qed.
+
+(* ------------------------------------------------------------------ REBUILDS over an already valid older state *)
+(* (Model/FsRebuild.v, Proofs/FsRebuildP.v)  The cache holds, on every patch, (trees X, marker X) for an earlier binning X
+   (or no trees at all); a rebuild asks for Y, FORCED or implicitly because the stored binning differs; the rebuild of a
+   patch is a sequence of phases (invalidate the marker | write the trees | write the marker) in an order that may depend
+   on how the rebuild was asked for (a `discipline`); the process dies after ANY number of system calls; a later
+   measurement asks for ANY binning b' (X again, Y, a third).  With the order "invalidate, trees, marker" for the way
+   the rebuild was asked for, the measurement fails loudly or uses, on every patch, trees built for b' ... *)
+Theorem C08_rebuild_over_valid_safe : forall (d : discipline) (s0 : fs) (ids : list nat) (ies : list (nat * nat))
+    (earlier : option nat) (Y : nat) (force : bool) (k b' : nat),
+  d force = safe_order -> NoDup (map fst ies) -> earlier_state_b s0 ids earlier = true ->
+  let s := apply (firstn k (ops_rebuild d s0 ies Y force)) s0 in
+  measure s ids b' = Err \/ measure s ids b' = Ok (map (fun _ => b') ids).
+Proof. exact rebuild_over_valid_safe. Qed.
+Print Assumptions C08_rebuild_over_valid_safe.
+
+(* ... per patch, from any consistent cache ... *)
+Theorem C08_rebuild_safe : forall (d : discipline) (s0 : fs) (ies : list (nat * nat)) (b : nat) (force : bool) (k i : nat),
+  d force = safe_order -> NoDup (map fst ies) -> consistent_b s0 i = true ->
+  forall b', let s := apply (firstn k (ops_rebuild d s0 ies b force)) s0 in
+             use_trees s i b' = UErr \/ use_trees s i b' = Used b'.
+Proof. exact rebuild_safe. Qed.
+Print Assumptions C08_rebuild_safe.
+
+(* ... also when the recovery knows the numbers of bins (more trees than bins raise, fewer are silent) ... *)
+Theorem C08_rebuild_over_valid_safe_bins : forall (nb : list (nat * nat)) (d : discipline) (s0 : fs) (ids : list nat)
+    (ies : list (nat * nat)) (earlier : option nat) (Y : nat) (force : bool) (k b' : nat),
+  d force = safe_order -> NoDup (map fst ies) -> earlier_state_b s0 ids earlier = true ->
+  let s := apply (firstn k (ops_rebuild d s0 ies Y force)) s0 in
+  measure_n nb s ids b' = Err \/ measure_n nb s ids b' = Ok (map (fun _ => b') ids).
+Proof. exact rebuild_over_valid_safe_n. Qed.
+Print Assumptions C08_rebuild_over_valid_safe_bins.
+
+(* ... which is what the harness evaluates per crash point of a rebuild workload: never class 1 (0 = error, 4 = the
+   result of a fresh cache), whenever the hypotheses it checks on the concrete prior state hold *)
+Theorem C08_rebuild_class_safe : forall (nb : list (nat * nat)) (l : list (path * content)) (ies : list (nat * nat)) (b : nat)
+    (force : bool) (earlier : option nat) (k req : nat),
+  c08_rebuild_hyp (WBuild l ies b force) earlier = 0 ->
+  rebuild_class true nb (WBuild l ies b force) k req = 0 \/ rebuild_class true nb (WBuild l ies b force) k req = 4.
+Proof. exact rebuild_class_safe. Qed.
+Print Assumptions C08_rebuild_class_safe.
+
+(* ... through a CHAIN of crashed rebuilds (each for its own binning, forced or not, dying anywhere, starting from what
+   the previous one left) ... *)
+Theorem C08_rebuild_chain_safe : forall (d : discipline) (ies : list (nat * nat)) (s0 : fs) (i : nat) (l : list attempt),
+  (forall force, d force = safe_order) -> NoDup (map fst ies) -> consistent_b s0 i = true ->
+  forall b', use_trees (run_attempts d ies s0 l) i b' = UErr \/ use_trees (run_attempts d ies s0 l) i b' = Used b'.
+Proof. exact rebuild_chain_safe. Qed.
+Print Assumptions C08_rebuild_chain_safe.
+
+(* ... and the rebuild that runs to its end leaves a cache the next measurement with the requested binning uses *)
+Theorem C08_rebuild_complete : forall (d : discipline) (s0 : fs) (ies : list (nat * nat)) (b : nat) (force : bool) (i e : nat),
+  d force = safe_order -> NoDup (map fst ies) -> In (i, e) ies -> consistent_b s0 i = true ->
+  let s := apply (ops_rebuild d s0 ies b force) s0 in
+  decode (s (PBin i)) = Some b /\ s (PTrees i) = Some (TreesF (Some b)).
+Proof. exact rebuild_complete. Qed.
+Print Assumptions C08_rebuild_complete.
+
+Theorem C08_rebuild_complete_measure : forall (d : discipline) (s0 : fs) (ies : list (nat * nat)) (b : nat) (force : bool),
+  d force = safe_order -> NoDup (map fst ies) -> forallb (consistent_b s0) (map fst ies) = true ->
+  measure (apply (ops_rebuild d s0 ies b force) s0) (map fst ies) b = Ok (map (fun _ => b) (map fst ies)).
+Proof. exact rebuild_complete_measure. Qed.
+Print Assumptions C08_rebuild_complete_measure.
+
+(* the two forms of Model/FsCrash.v are the disciplines "always this order" *)
+Theorem C08_rebuild_safe_order_is_repaired_form : forall (d : discipline) (s : fs) (ies : list (nat * nat)) (b : nat) (force : bool),
+  d force = safe_order -> ops_rebuild d s ies b force = ops_build true s ies b force.
+Proof. exact rebuild_safe_order_eq. Qed.
+Print Assumptions C08_rebuild_safe_order_is_repaired_form.
+
+Theorem C08_rebuild_keep_marker_is_pinned_form : forall (d : discipline) (s : fs) (ies : list (nat * nat)) (b : nat) (force : bool),
+  d force = keep_marker_order -> ops_rebuild d s ies b force = ops_build false s ies b force.
+Proof. exact rebuild_keep_marker_eq. Qed.
+Print Assumptions C08_rebuild_keep_marker_is_pinned_form.
+
+(* a rebuild that leaves the old marker in place while it rewrites the trees - forced or implicit, for ALL binnings
+   X <> Y with bins, any number of write calls of the pickle, whatever follows: the crash right after the last write of
+   trees.pkl leaves marker X over trees Y, and the request X uses them without an error *)
+Theorem C08_keep_marker_stale : forall (d : discipline) (s0 : fs) (X Y i e : nat) (force : bool) (rest : list (nat * nat)),
+  X <> 0 -> Y <> 0 -> X <> Y -> valid_patch_b s0 X i = true -> d force = keep_marker_order ->
+  let ops := ops_rebuild d s0 ((i, e) :: rest) Y force in
+  use_trees (apply (firstn (S (S e)) ops) s0) i X = Used Y.
+Proof. exact keep_marker_stale. Qed.
+Print Assumptions C08_keep_marker_stale.
+
+(* the marker written BEFORE the trees (even after an invalidation): marker Y over trees X, the request Y uses them *)
+Theorem C08_marker_before_trees_stale : forall (d : discipline) (s0 : fs) (X Y i e : nat) (force : bool) (rest : list (nat * nat)),
+  X <> 0 -> Y <> 0 -> X <> Y -> valid_patch_b s0 X i = true -> d force = [PhInval; PhMarker; PhTrees] ->
+  let ops := ops_rebuild d s0 ((i, e) :: rest) Y force in
+  use_trees (apply (firstn 4 ops) s0) i Y = Used X.
+Proof. exact marker_before_trees_stale. Qed.
+Print Assumptions C08_marker_before_trees_stale.
+
+(* a discipline that invalidates only where the stored binning is compared (not when forced): the forced rebuild for
+   binning 2 over a cache valid for binning 1, dead after 2 system calls, measures binning 1 with trees of binning 2 on
+   patch 0; the implicit rebuild and the forced rebuild for the SAME binning are safe at every crash point under the
+   same discipline (so neither shows the defect) *)
+Theorem C08_forced_rebuild_stale_refuted :
+  let s0 := fs_of s_old_trees in
+  let ies := [(0, 0); (1, 0)] in
+  earlier_state_b s0 [0; 1] (Some 1) = true /\
+  (let s := apply (firstn 2 (ops_rebuild d_unforced_only s0 ies 2 true)) s0 in
+   use_trees s 0 1 = Used 2 /\ measure s [0; 1] 1 = Ok [2; 1]) /\
+  all_safe_b (ops_rebuild d_unforced_only s0 ies 2 false) s0 [0; 1] [0; 1; 2; 3] = true /\
+  all_safe_b (ops_rebuild d_unforced_only s0 ies 1 true) s0 [0; 1] [0; 1; 2; 3] = true /\
+  all_safe_b (ops_rebuild d_always s0 ies 2 true) s0 [0; 1] [0; 1; 2; 3] = true /\
+  all_safe_b (ops_rebuild d_unforced_only s0 ies 2 true) s0 [0; 1] [0; 1; 2; 3] = false.
+Proof. exact forced_rebuild_stale_refuted. Qed.
+Print Assumptions C08_forced_rebuild_stale_refuted.
+
+(* all six orders of the three phases and the two without an invalidation: exactly one is safe at every crash point;
+   five leave a valid cache when they run to the end (an uninterrupted run cannot tell them apart) *)
+Theorem C08_phase_orders_classified :
+  map (fun o => order_safe_b o 1 2 1 [0; 1; 2; 3]) all_orders = [true; false; false; false; false; false; false; false] /\
+  map (fun o => order_complete_b o 1 2 1) all_orders = [true; true; true; false; false; false; true; true].
+Proof. exact phase_orders_classified. Qed.
+Print Assumptions C08_phase_orders_classified.
+
+Theorem C08_bin_count_mismatch_one_way :
+  let nb := [(1, 2); (5, 3)] in
+  use_trees_n nb (fs_of [(PBin 0, BinF (BWhole 1)); (PTrees 0, TreesF (Some 5))]) 0 1 = UErr /\
+  use_trees_n nb (fs_of [(PBin 0, BinF (BWhole 5)); (PTrees 0, TreesF (Some 1))]) 0 5 = Used 1.
+Proof. exact bin_count_mismatch_one_way. Qed.
+Print Assumptions C08_bin_count_mismatch_one_way.
+
+(* non-vacuity of the rebuild form: two patches valid for the 3-bin binning 5, FORCED rebuild for the 2-bin binning 1
+   (one write call per pickle).  Hypotheses hold; the repaired model issues 14 operations (per patch: marker removed,
+   2 for the pickle, 3 for the marker + 1 truncation) and every crash point is an error (0) or the result of a fresh
+   cache (4) for the later requests 5 (earlier), 1 (rebuilt), 2 (third) and unbinned; the operation list is the one of the
+   discipline d_always and of no discipline that keeps the marker when forced; with the marker kept (pinned form, 12
+   operations) crash point 2 measures the earlier binning 5 with the two trees of binning 1: class 1 *)
+Example C08_concrete_rebuild :
+  let l := [(PRoot, Dir); (PIds, IdsF [0; 1]); (PDir 0, Dir); (PData 0, DataF true [0; 1]); (PMeta 0, MetaF true);
+            (PBin 0, BinF (BWhole 5)); (PTrees 0, TreesF (Some 5));
+            (PDir 1, Dir); (PData 1, DataF true [2]); (PMeta 1, MetaF true);
+            (PBin 1, BinF (BWhole 5)); (PTrees 1, TreesF (Some 5))] in
+  let w := WBuild l [(0, 0); (1, 0)] 1 true in
+  let nb := [(1, 2); (2, 2); (5, 3)] in
+  c08_rebuild_hyp w (Some 5) = 0 /\ c08_rebuild_hyp w (Some 1) = 1 /\ c08_hyp w = 0 /\
+  length (w_ops true w) = 14 /\ length (w_ops false w) = 12 /\
+  map (fun k => rebuild_class true nb w k 5) (seq 0 15) = [4; 4; 4; 4; 4; 4; 4; 4; 4; 4; 4; 4; 4; 4; 4] /\
+  map (fun k => rebuild_class true nb w k 1) (seq 0 15) = [4; 4; 4; 4; 4; 4; 0; 4; 4; 4; 4; 4; 4; 0; 4] /\
+  map (fun k => rebuild_class true nb w k 2) (seq 0 15) = [4; 4; 4; 4; 4; 4; 4; 4; 4; 4; 4; 4; 4; 4; 4] /\
+  map (fun k => rebuild_class true nb w k 0) (seq 0 15) = [4; 4; 4; 4; 0; 0; 0; 4; 4; 4; 4; 0; 0; 0; 4] /\
+  c08_rebuild_ops d_always w (w_ops true w) = 0 /\ c08_rebuild_ops d_forced_only w (w_ops true w) = 0 /\
+  c08_rebuild_ops d_unforced_only w (w_ops true w) = 1 /\ c08_rebuild_ops d_unforced_only w (w_ops false w) = 0 /\
+  rebuild_class false nb w 2 5 = 1 /\ c08_rebuild_case false nb w 2 5 1 = 2 /\ c08_rebuild_case true nb w 2 5 4 = 0.
 Proof. vm_compute. repeat split. Qed.
